@@ -4,7 +4,7 @@ from common import *
 import decl, gen, pktcases, pktprops
 
 PID = 'C02'
-TARGETS = ['Properties/C02.vo', 'Bridge/FragBridge.vo', 'Bridge/IntBridge.vo', 'Bridge/DataBridge.vo', 'Bridge/MoveBridge.vo', 'Bridge/BitsBridge.vo',
+TARGETS = ['Properties/C02.vo', 'Proofs/PackUnpackX.vo', 'Bridge/FragBridge.vo', 'Bridge/IntBridge.vo', 'Bridge/DataBridge.vo', 'Bridge/MoveBridge.vo', 'Bridge/BitsBridge.vo',
            'Bridge/CodegenBridge.vo', 'Bridge/RefBridge.vo']
 KERNELS = ['G1_frag', 'G6_int', 'G8_data', 'G3_move', 'G4_seq', 'G5_bits', 'G11_codegen', 'G16_ref', 'G16b_optional']
 PROP_FILE = 'Properties/C02.v'
@@ -100,7 +100,7 @@ def run(tier, seed, rng):
     groups.append(d8)
     records, disagreements = pktcases.run_groups(groups, 'c02')
     failures = []
-    dist = dict(values=0, packed=0, reparsed_equal=0, not_serializable=0, reference_encoding_checked=0, with_positioning=0)
+    dist = dict(values=0, packed=0, reparsed_equal=0, not_serializable=0, reference_encoding_checked=0, with_positioning=0, census=0, in_sequential_theorem=0, in_extended_theorem=0)
     last_pack = {}
     for r in records:
         if r['kind'] == 'pack':
@@ -144,6 +144,49 @@ def run(tier, seed, rng):
                                      observed=dict(parsed=o['ok'], end=o['end'], length=len(r['raw']))))
             else:
                 dist['reparsed_equal'] += 1
+    # ---- census: on how many of the generated values do the hypotheses of the theorems hold (evaluated in Coq on the model's
+    # rendering of the same table and value)?  A value inside the hypotheses that fails the oracle would contradict
+    # theorem + correspondence; the census also measures how much of the generated space the theorems speak about.
+    census_hdr = ("From Coq Require Import ZArith List Bool.\n"
+                  "From Bisturi Require Import Base.Bytes Kernel.IntCodec Kernel.Align Kernel.DataK Model.Value Model.Decl Model.Unpack Model.Pack Model.Init Model.Canon Model.Wf Model.WfBits Model.Consistent Model.ConsistentX "
+                  "Proofs.RoundTrip Proofs.PackUnpack Proofs.PackUnpackX.\nImport ListNotations. Open Scope Z_scope.\n"
+                  "Definition census (tbl : list (cid * pclass)) (vs : list value) : list Z :=\n"
+                  "  let ct := mk_ctab tbl in\n"
+                  "  map (fun v => match complete FUEL ct v with\n"
+                  "                | Some (VPkt c s) =>\n"
+                  "                    (if ct_distinct ct && ct_plain ct && consistent FUEL ct c s then 1 else 0) +\n"
+                  "                    (if ct_distinct ct && ct_bits_ok ct && consistentx FUEL ct c s && vclean ct (VPkt c s) then 2 else 0)\n"
+                  "                | _ => 0 end) vs.\n")
+    by_group = {}
+    for r in records:
+        if r['kind'] == 'pack' and r['group'] < 90000:
+            by_group.setdefault(r['group'], []).append(r)
+    files = []
+    order = []
+    for part_i, part in enumerate(shard(sorted(by_group), max(1, len(by_group) // NPROC + 1))):
+        text = [census_hdr]
+        calls = []
+        for gid in part:
+            table = pktprops.table_of(groups, gid)
+            text.append(f"Definition T{gid} : list (cid * pclass) := {decl.cq_table(table)}.\n")
+            text.append(f"Definition V{gid} : list value := [{'; '.join(decl.cq_value(r['value']) for r in by_group[gid])}].\n")
+            calls.append(f"census T{gid} V{gid}")
+            order += by_group[gid]
+        text.append("Eval vm_compute in (" + " ++ ".join(calls) + ").\n")
+        files.append((f"census_{part_i}", "".join(text)))
+    outs = coq_eval_files(files)
+    codes = []
+    for name, _ in files:
+        codes += parse_coq_list(outs[name])
+    dist['in_sequential_theorem'] = sum(1 for c in codes if c & 1)
+    dist['in_extended_theorem'] = sum(1 for c in codes if c & 2)
+    dist['census'] = len(codes)
+    failing_values = {(f.get('cls'), f.get('value')) for f in failures if f.get('sig') in ('pack-unpack', 'pack-consistent')}
+    for r, code in zip(order, codes):
+        if code and (decl.cname(r['c']), decl.py_value(r['value'])) in failing_values:
+            for f in failures:
+                if (f.get('cls'), f.get('value')) == (decl.cname(r['c']), decl.py_value(r['value'])):
+                    f['inside_theorem_hypotheses'] = True
     return dict(evaluations=len(records), distinct_nontrivial=dist['packed'],
                 rule=("random class tables over the language without regex / read-to-end fields and without a search window, with and without "
                       "positioning, code generation options varied; per class several values consistent with the declaration (lengths, counts, "
